@@ -244,6 +244,16 @@ def U_pair():
         insts = [inst("pr", "C2", [("a", ta), ("b", tb)], kind="pair")]
         out.append(("U_pair", design({"C2": c2, "Top": mod(top_sigs, insts + bprobes("d", DL) + bprobes("e", DL), [bnd("d", "Diff"), bnd("e", "Diff")])},
                                      bundles=bundles)))
+    # an instance-bundle type of the designer's own (h.InstanceBundleType) over a three-signal bundle: one instance per member
+    T3 = {"sigs": [bsig("x", 1), bsig("y", 1), bsig("z", 1)], "subs": [], "roles": []}
+    TL = [(("x",), 1), (("y",), 1), (("z",), 1)]
+    terms3 = [Bund("t"), Sig("u"), Anon(x=Sig("u"), y=Sig("v"), z=Slc(Sig("w2"), I(1))), Anon(z=Bref("t", "x"), x=Bref("t", "z"), y=Sig("v")),
+              Anon(x=Sig("u"), y=Sig("v")), Bund("d"), Bund("t2")]
+    for ta, tb in itertools.product(terms3, terms3):
+        i3 = inst("tr", "C2", [("a", ta), ("b", tb)], kind="pair")
+        i3["ibt"], i3["members"] = "T3", ["x", "y", "z"]
+        out.append(("U_pair", design({"C2": c2, "Top": mod(top_sigs, [i3] + bprobes("t", TL) + bprobes("t2", TL) + bprobes("d", DL),
+                                                           [bnd("t", "T3"), bnd("t2", "T3"), bnd("d", "Diff")])}, bundles={"Diff": DIFF, "T3": T3})))
     return out
 
 
